@@ -49,6 +49,7 @@ type Engine struct {
 	decls          map[*types.Func]*declInfo
 	globals        map[*types.Var]*globalInfo
 	targets        map[string]*Target
+	litKeys        map[*ast.FuncLit]string
 	overflowChecks bool
 	timeoutS       int
 	loadTime       float64
@@ -62,7 +63,7 @@ func loadEngine(repo string) (*Engine, error) {
 	if err != nil {
 		return nil, err
 	}
-	e := &Engine{repo: repo, w: newWorld(), decls: map[*types.Func]*declInfo{}, globals: map[*types.Var]*globalInfo{}, targets: map[string]*Target{}, timeoutS: 8}
+	e := &Engine{repo: repo, w: newWorld(), decls: map[*types.Func]*declInfo{}, globals: map[*types.Var]*globalInfo{}, targets: map[string]*Target{}, litKeys: map[*ast.FuncLit]string{}, timeoutS: 8}
 	var errs []string
 	for _, p := range all {
 		for _, pe := range p.Errors {
@@ -118,6 +119,7 @@ func loadEngine(repo string) (*Engine, error) {
 								ord++
 								k := fmt.Sprintf("%s$%d", key, ord)
 								e.targets[k] = &Target{Key: k, pkg: p, lit: lit, sig: p.TypesInfo.TypeOf(lit).(*types.Signature)}
+								e.litKeys[lit] = k
 							}
 							return true
 						})
@@ -358,7 +360,7 @@ func (e *Engine) newCtx(t *Target) *FnCtx {
 	c := &FnCtx{eng: e, w: e.w, pkg: t.pkg, info: t.pkg.TypesInfo, fname: t.Key, spec: t.spec,
 		declared: map[string]bool{}, counts: map[string]int{}, paramVals: map[string]Val{}, paramObjs: map[string]types.Object{},
 		unmodelled: map[string]bool{}, trusted: map[string]bool{}, strLits: map[string]string{}, factCache: map[string]bool{},
-		ghost: map[string]Val{}, ghostFns: map[string]string{}, boxed: map[types.Object]bool{}, knownInts: map[string]int64{}, axiomsDone: map[string]bool{}, deps: map[string]bool{}, callHeapKeys: map[string]bool{}, sig: t.sig}
+		ghost: map[string]Val{}, ghostFns: map[string]string{}, boxed: map[types.Object]bool{}, isMacro: map[string]bool{}, knownInts: map[string]int64{}, axiomsDone: map[string]bool{}, deps: map[string]bool{}, callHeapKeys: map[string]bool{}, sig: t.sig}
 	if t.decl != nil {
 		c.decl = t.decl
 	} else if t.lit != nil {
@@ -565,6 +567,31 @@ func (e *Engine) verifyFunc(t *Target) (res *FuncResult) {
 		}
 		outs = append(outs, r.st)
 	}
+	// clauses checked at every return separately
+	if fs != nil {
+		for ei, en := range fs.Ensures {
+			if !en.Each {
+				continue
+			}
+			for ri, o := range outs {
+				esc := &SpecScope{c: c, cur: o, old: c.entry, vars: map[string]Val{}, oldVars: map[string]Val{}}
+				for k, v := range c.paramVals {
+					esc.vars[k] = v
+					esc.oldVars[k] = v
+				}
+				for i := 0; i < sig.Results().Len(); i++ {
+					if i < len(fs.Results) {
+						esc.vars[fs.Results[i]] = o.env[sig.Results().At(i)]
+					}
+				}
+				name := fmt.Sprintf("post#%d@ret%d", ei+1, ri+1)
+				if en.Label != "" {
+					name = fmt.Sprintf("post:%s@ret%d", en.Label, ri+1)
+				}
+				c.obligeNamed(o, "post", name, esc.boolOf(en.Expr), "ensures "+en.Src, token.NoPos)
+			}
+		}
+	}
 	final := c.merge(outs)
 	if final == nil {
 		if fs != nil && len(fs.Ensures) > 0 {
@@ -596,6 +623,9 @@ func (e *Engine) verifyFunc(t *Target) (res *FuncResult) {
 		}
 	}
 	for i, en := range fs.Ensures {
+		if en.Each {
+			continue
+		}
 		name := fmt.Sprintf("post#%d", i+1)
 		if en.Label != "" {
 			name = "post:" + en.Label
@@ -746,6 +776,7 @@ func (c *FnCtx) ghostAssignFinal(st *State, cl *Clause, sig *types.Signature, fs
 	c.openBound = c.openBound[:len(c.openBound)-1]
 	nw := c.newHeapVersion(key)
 	c.declared[nw] = true
+		c.isMacro[nw] = true
 	c.emit(fmt.Sprintf("(define-fun %s ((%s Int)) Int %s)", nw, bv, body))
 	st.heaps[key] = nw
 }
